@@ -96,7 +96,11 @@ def sub_iteragg(case):
         kw["method"] = method
     b = L - 1 if case.get("begin") is None else locate(axis, case["begin"], method)
     e = 0 if case.get("end") is None else locate(axis, case["end"], method)
-    gen = getattr(da.hdc.iteragg, func)
+    obj = da
+    if case.get("container") == "dataset":
+        # the same cube as the variables a and b = 2a of a Dataset (the aggregation runs once per variable)
+        obj = xr.Dataset({"a": da, "b": da * 2}, attrs=dict(da.attrs))
+    gen = getattr(obj.hdc.iteragg, func)
     desc = "iteragg.%s(n=%r, %s) on axis %s" % (func, n, ", ".join("%s=%r" % kv for kv in kw.items()), fmt(axis, 14))
     if b is None or e is None:
         expect_raises(desc + " with a label that is not on the axis", (ValueError,), lambda: list(gen(n, **kw)))
@@ -110,6 +114,12 @@ def sub_iteragg(case):
     for it, (j, k) in zip(items, want):
         w = vals[j:k + 1]  # (n, 2)
         a = it.attrs
+        if obj is not da:
+            req(isinstance(it, xr.Dataset) and set(it.data_vars) == {"a", "b"}, "%s on a Dataset yields %s" % (desc, type(it).__name__), "iteragg dataset item")
+            twice = it["b"]
+            it = it["a"]
+            req(np.allclose(twice.values, 2 * it.values, rtol=1e-12, atol=0, equal_nan=True), "%s: Dataset variable b = 2a gives %s, variable a gives %s" % (
+                desc, fmt(twice.values.ravel()), fmt(it.values.ravel())), "iteragg dataset variables disagree")
         req(a.get("agg_start") == str(labels[j]) and a.get("agg_stop") == str(labels[k]) and a.get("agg_n") == nn,
             "%s: window (%d..%d) carries attrs %s" % (desc, j, k, {x: a.get(x) for x in ("agg_start", "agg_stop", "agg_n")}), "iteragg attrs")
         req(a.get("nodata") == -1, "%s: original attrs lost: %s" % (desc, a), "iteragg keep attrs")
@@ -135,7 +145,64 @@ def sub_iteragg(case):
     return None
 
 
-SUBS = {"iteragg": sub_iteragg}
+def sub_history(case):
+    """One cube object used again and again while its axis is relabelled in place and cells are overwritten: every iteragg call must
+    behave exactly like the same call on a brand-new object built from the current state (same items, same attrs, same errors),
+    and items handed out earlier keep their values."""
+    da, vals, labels = _cube(case)
+    dim = case["dim"]
+    axis = [int(v) for v in case["axis"]]
+    held = []
+
+    def items_of(obj, op):
+        kw = {"dim": dim}
+        c2 = dict(case, axis=axis)
+        if op[3] is not None:
+            kw["begin"] = _label(c2, op[3])
+        if op[4] is not None:
+            kw["end"] = _label(c2, op[4])
+        try:
+            with warnings.catch_warnings():
+                warnings.simplefilter("ignore")
+                return list(getattr(obj.hdc.iteragg, op[1])(op[2], **kw)), None
+        except ValueError as ex:
+            return None, ex
+
+    for k, op in enumerate(case["ops"]):
+        if op[0] == "shift_axis":
+            axis = [a + int(op[1]) for a in axis]
+            c2 = dict(case, axis=axis)
+            newlab = _axis_labels(c2)
+            da[dim] = pd.DatetimeIndex(newlab) if dim == "time" else newlab
+        elif op[0] == "set_cell":
+            i, j = op[1] % len(axis), op[2] % 2
+            if dim == "time":
+                da.values[i, j] = op[3]
+            else:
+                da.values[j, i] = op[3]
+        else:
+            fresh = xr.DataArray(da.values.copy(), dims=da.dims, coords={c: da.coords[c].values.copy() for c in da.coords}, attrs=dict(da.attrs))
+            got, gerr = items_of(da, op)
+            want, werr = items_of(fresh, op)
+            hist = [o[0] for o in case["ops"][:k + 1]]
+            desc = "iteragg.%s(n=%r, begin=%r, end=%r) on the same object after the history %s (axis now %s)" % (op[1], op[2], op[3], op[4], hist, fmt(axis, 12))
+            req((gerr is None) == (werr is None), "%s %s, a new object with the same content %s" % (
+                desc, "raises %r" % gerr if gerr else "yields %d items" % len(got), "raises %r" % werr if werr else "yields %d items" % len(want)),
+                "iteragg stale after in-place edit (error)")
+            if gerr is None:
+                req(len(got) == len(want), "%s yields %d items, a new object with the same content %d" % (desc, len(got), len(want)), "iteragg stale after in-place edit (count)")
+                for a, b in zip(got, want):
+                    req(a.attrs == b.attrs, "%s: attrs %s, a new object with the same content gives %s" % (desc, a.attrs, b.attrs), "iteragg stale after in-place edit (attrs)")
+                    req(a.dims == b.dims and np.array_equal(a.values, b.values, equal_nan=True) and all(
+                        np.array_equal(a.coords[c].values, b.coords[c].values) for c in b.coords),
+                        "%s: item %s, a new object with the same content gives %s" % (desc, fmt(a.values.ravel()), fmt(b.values.ravel())), "iteragg stale after in-place edit (values)")
+                    held.append((k, a, a.values.copy()))
+    for k, a, snap in held:
+        req(np.array_equal(a.values, snap, equal_nan=True) or case.get("views_expected", True) and any(o[0] == "set_cell" for o in case["ops"]),
+            "an iteragg item obtained at step %d changed afterwards" % k, "iteragg item aliased")
+
+
+SUBS = {"iteragg": sub_iteragg, "history": sub_history}
 
 
 def _values(L, seed):
@@ -207,7 +274,8 @@ def gen_case(draw, Lmax):
     nans = [[draw(st.integers(0, L - 1)), draw(st.integers(0, 1))] for _ in range(nn)]
     return {"axis": axis, "values": vals, "nans": nans, "dim": dim, "func": draw(st.sampled_from(["sum", "mean", "full"])),
             "n": draw(st.one_of(st.none(), st.integers(1, L + 1))), "begin": b, "end": e, "bk": bk, "ek": ek,
-            "method": draw(st.sampled_from([None, None, "nearest", "ffill", "bfill"])), "as_str": draw(st.booleans())}
+            "method": draw(st.sampled_from([None, None, "nearest", "ffill", "bfill"])), "as_str": draw(st.booleans()),
+            "container": draw(st.sampled_from(["dataarray", "dataarray", "dataset"]))}
 
 
 def run(ctx):
@@ -218,6 +286,28 @@ def run(ctx):
     def f(case):
         why = sub_iteragg(case)
         rec.case("iteragg", case, nontrivial=True, cls=["begin:" + case["bk"], "end:" + case["ek"], "method:%s" % case["method"], "dim:" + case["dim"],
-                                                         "raised" if why else "yielded"])
+                                                         "raised" if why else "yielded", "container:" + case.get("container", "dataarray")])
 
     ctx.given("iteragg", gen_case(ctx.n(20, 40)), ctx.n(1500, 15000), fn=f)
+
+    @st.composite
+    def hist(draw):
+        L = draw(st.integers(2, 8))
+        dim = draw(st.sampled_from(["time", "band"]))
+        axis = [0]
+        for g in draw(st.lists(st.sampled_from([4, 6, 10]), min_size=L - 1, max_size=L - 1)):
+            axis.append(axis[-1] + g)
+        offs = st.sampled_from([0, 4, 6, 10, 20, -4, -10, 16, 30])   # labels on or off the axis, before and after relabelling
+        q = st.tuples(st.just("agg"), st.sampled_from(["sum", "mean", "full"]), st.one_of(st.none(), st.integers(1, L)), st.one_of(st.none(), offs), st.one_of(st.none(), offs))
+        ops_ = draw(st.lists(st.one_of(q, q, st.tuples(st.just("shift_axis"), st.sampled_from([4, 6, 10, -4, 20])),
+                                       st.tuples(st.just("set_cell"), st.integers(0, 7), st.integers(0, 1), st.integers(-99, 99))), min_size=2, max_size=8))
+        return {"axis": axis, "dim": dim, "values": draw(st.lists(st.integers(-500, 500), min_size=2 * L, max_size=2 * L)),
+                "nans": [[draw(st.integers(0, L - 1)), draw(st.integers(0, 1))] for _ in range(draw(st.integers(0, 2)))],
+                "as_str": draw(st.booleans()), "ops": [list(o) for o in ops_] + [list(draw(q))]}
+
+    def f_h(case):
+        kinds = [o[0] for o in case["ops"]]
+        rec.case("history", case, nontrivial=kinds.count("agg") >= 2 and ("shift_axis" in kinds or "set_cell" in kinds), cls=["ops=%d" % len(kinds)] + sorted(set(kinds)))
+        sub_history(case)
+
+    ctx.given("history", hist(), ctx.n(300, 4000), fn=f_h)
